@@ -21,7 +21,12 @@ OPTION_SETS = {
     "assign_only": ["--assign-only"],
     "clean": ["--clean"],
     "drop_water": ["--drop-water"],
+    # PARSE only
+    "neutraln": ["--neutraln"],
+    "neutralc": ["--neutralc"],
+    "neutral_both": ["--neutraln", "--neutralc"],
 }
+NEUTRAL_SETS = ("neutraln", "neutralc", "neutral_both")
 
 POLAR = {
     "SER": ["OG"], "THR": ["OG1"], "TYR": ["OH"], "HIS": ["ND1", "NE2"],
@@ -529,4 +534,24 @@ def multi_clash_cases(ff, names=None, all_pairs=False):
                 seen.append(st)
                 out.append({"x": x, "pos": pos, "ff": ff, "opt": "default",
                             "env": [["clash", h] for h in st]})
+    return out
+
+
+def neutral_cases():
+    """PARSE with neutral termini: bare hosts at the chain ends and water
+    probes on the terminal N / O / OXT (the neutral carboxyl group is an
+    optimisable 'Carboxylic' group of its own)."""
+    out = []
+    for opt in NEUTRAL_SETS:
+        for x in corpus.INPUT_NAMES:
+            for pos in ("n", "c"):
+                out.append({"x": x, "pos": pos, "ff": "PARSE", "opt": opt,
+                            "env": []})
+    for x in ("ALA", "GLY", "SER", "ASP", "LYS", "PRO"):
+        for pos, targets, opt in (("c", ("O", "OXT"), "neutralc"),
+                                  ("n", ("N",), "neutraln")):
+            for t in targets:
+                for di in range(14):
+                    out.append({"x": x, "pos": pos, "ff": "PARSE", "opt": opt,
+                                "env": [["water", t, di, 2.8]]})
     return out
